@@ -281,6 +281,33 @@ func (s *Syncer[H]) findTailHeight(ctx context.Context, oldTail, head H) (uint64
 
 		newTailHeight++
 	}
+	for {
+		// the estimation may also overshoot, e.g. if blocks are faster than the block time,
+		// so iterate backwards to keep all the headers that are still within the window
+		prevTailHeight := newTailHeight - 1
+		if storeHeight := s.store.Height(); prevTailHeight > storeHeight {
+			// headers above are not stored yet
+			prevTailHeight = storeHeight
+		}
+		if prevTailHeight <= oldTail.Height() {
+			break
+		}
+
+		prevTail, err := s.store.GetByHeight(ctx, prevTailHeight)
+		if err != nil {
+			return 0, fmt.Errorf(
+				"getting estimated new tail(%d) from store: %w",
+				estimatedTailHeight,
+				err,
+			)
+		}
+
+		if expectedTailTime.Compare(prevTail.Time().UTC()) > 0 {
+			break
+		}
+
+		newTailHeight = prevTailHeight
+	}
 
 	log.Debugw(
 		"new tail height",
